@@ -45,6 +45,15 @@ MUTANTS = {
     # Get gives up the ancestors' locks early (no lock coupling): RUnlock before recursing
     "get_no_coupling": lambda s: in_func(s, "func (t *Tree) Get(", "\t\t\treturn br.Get(path[1:])",
                                          "\t\t\tt.mu.RUnlock()\n\t\t\tr := br.Get(path[1:])\n\t\t\tt.mu.RLock()\n\t\t\treturn r"),
+    # revert the repair of D15: internalDelete reads descendants under the root lock only
+    "revert_d15_fix": lambda s: in_func(s, "func (t *Tree) internalDelete(",
+                                        "\t\tt.mu.RLock()\n\t\tlb = t.leafBranch\n\t\tt.mu.RUnlock()\n", "\t\tlb = t.leafBranch\n"),
+    # the same defect through the flag: the recursion claims every node is the root
+    "d15_recursion_root_true": lambda s: in_func(s, "func (t *Tree) internalDelete(",
+                                                 "internalDelete(subpath, condition, f, retDeletedPaths, false)",
+                                                 "internalDelete(subpath, condition, f, retDeletedPaths, true)"),
+    # the schedule point is dropped: the upgrade window can no longer be forced
+    "drop_hook": lambda s: s.replace('\t\tverifPoint("ctree.add.upgrade")\n', ""),
     # Leaf.Update without the node lock
     "update_unlocked": lambda s: in_func(s, "func (l *Leaf) Update(", "\tdefer l.mu.Unlock()\n\tl.mu.Lock()\n", ""),
 }
